@@ -2,7 +2,7 @@
 from pyvc.verify import Post, Case, Equiv, NativeFacts
 
 PROPERTY = 'C18'
-REF_MODULES = ['h_path']
+REF_MODULES = ['h_path', 'ref_extra']
 FIELD_TYPES = {'core.Path.path_t': 'inst:core.TType', 'core.TType.__ops__': 'seq'}
 REP = ['len(ops(self)) % 2 == 1']          # representation invariant of a path: (root, op1, arg1, ..., opn, argn)
 
@@ -106,6 +106,15 @@ def contracts():
                                lambda f, fns=fns, known=known: fns <= known))
             NativeFacts.run(self, v)
     cs.append(_ReprPure('C18.repr-pure', [], func='rendering helpers in glom/core.py'))
+    # rendering (regression equivalence only; the round trip through the parser is the bounded stand-in)
+    cs.append(Equiv('core._format_path', 'ref_extra.format_path_ref', args={'t_path': 'seq'}, requires=['len(t_path) % 2 == 0'],
+                    config=lambda cfg: cfg.summaries.update({'core._format_t': 'format_t'}),
+                    loops={1: dict(vars=[('i', 'int'), ('t_path', 'seq'), ('path_parts', 'list'), ('cur_t_path', 'list')], inv=['i % 2 == 0', 'i >= 0']),
+                           2: dict(vars=[])}))
+    cs.append(Equiv('core._format_t', 'ref_extra.format_t_ref', args={'path': 'seq', 'root': 'ref'}, requires=['len(path) % 2 == 0', 'root is T or root is S or root is A'],
+                    config=lambda cfg: (cfg.summaries.update({'core._format_path': 'format_path', 'core._format_slice': 'format_slice', 'core.format_invocation': 'format_invocation'}), cfg.summaries.pop('core._format_t', None)),
+                    loops={1: dict(vars=[('i', 'int'), ('path', 'seq'), ('prepr', 'list')], inv=['i % 2 == 0', 'i >= 0']),
+                           2: dict(vars=[]), 3: dict(vars=[('path', 'seq'), ('i', 'int')]), 4: dict(vars=[('arg_path', 'seq')])}))
     # the other shapes of Path(...): no parts -> the root T itself; a non-T part -> one 'P' step holding that very object; a T part not rooted at T is rejected
     TT = ['len(T.__ops__) == 1', 'T.__ops__[0] is T']
     cs.append(Post('core.Path.__init__', helpers='h_path', label='core.Path.__init__[shapes]', cases=[
